@@ -8,6 +8,7 @@ import (
 	"go/types"
 	"math/big"
 	"os"
+	"regexp"
 	"sort"
 	"strconv"
 	"strings"
@@ -106,7 +107,7 @@ func init() {
 	reg(rtPkg+".Choose", func(fr *frame, args []value) value {
 		n := int(asInt64(args[1]))
 		c := fr.path().choose(n)
-		fr.path().events = append(fr.path().events, Event{Kind: "choose:" + args[0].(string), Args: []value{c}})
+		fr.path().recordChoice(args[0].(string), c)
 		return c
 	})
 	reg(rtPkg+".Assume", func(fr *frame, args []value) value {
@@ -148,6 +149,46 @@ func init() {
 		fr.path().events = append(fr.path().events, ev)
 		return nil
 	})
+	reg(rtPkg+".Matches", func(fr *frame, args []value) value {
+		pat := args[0].(string)
+		if s, ok := args[1].(string); ok {
+			return regexp.MustCompile(pat).MatchString(s)
+		}
+		rl, err := regexToSMTSearch(pat)
+		if err != nil {
+			panic(engineError{"gsxrt.Matches: " + err.Error()})
+		}
+		return boolVal(InRe(mustTerm(args[1]), rl))
+	})
+	reg(rtPkg+".Or", func(fr *frame, args []value) value {
+		r := TFalse
+		for _, a := range args[0].([]value) {
+			r = Or(r, mustTerm(a))
+		}
+		return boolVal(r)
+	})
+	reg(rtPkg+".And", func(fr *frame, args []value) value {
+		r := TTrue
+		for _, a := range args[0].([]value) {
+			r = And(r, mustTerm(a))
+		}
+		return boolVal(r)
+	})
+	reg(rtPkg+".Bound", func(fr *frame, args []value) value {
+		v := fr.path().ex.opts.bound(args[0].(string), int(asInt64(args[1])))
+		if fr.path().extraModel == nil {
+			fr.path().extraModel = map[string]ModelVal{}
+		}
+		fr.path().extraModel["bound:"+args[0].(string)] = ModelVal{S: SInt, I: big.NewInt(int64(v))}
+		return v
+	})
+	reg(rtPkg+".Count", func(fr *frame, args []value) value {
+		r := IntLit(0)
+		for _, a := range args[0].([]value) {
+			r = Add(r, Ite(mustTerm(a), IntLit(1), IntLit(0)))
+		}
+		return intVal(r)
+	})
 	reg(rtPkg+".Symbolic", func(fr *frame, args []value) value { return true })
 	reg(rtPkg+".Concrete", func(fr *frame, args []value) value {
 		// Concrete(x string) string: fork over nothing; value must already be concrete
@@ -171,12 +212,28 @@ func init() {
 		return intVal(IndexOf(mustTerm(args[0]), StrFromCode(mustTerm(args[1])), IntLit(0)))
 	})
 	reg("strings.TrimPrefix", func(fr *frame, args []value) value {
+		if allConcrete(args) {
+			return strings.TrimPrefix(args[0].(string), args[1].(string))
+		}
 		s, p := mustTerm(args[0]), mustTerm(args[1])
-		return strVal(Ite(PrefixOf(p, s), Substr(s, StrLen(p), Sub(StrLen(s), StrLen(p))), s))
+		if fr.path().branch(PrefixOf(p, s)) {
+			t := fr.path().Fresh("trimprefix", SStr)
+			fr.path().Assume(Eq(s, Concat(p, t)))
+			return strVal(t)
+		}
+		return args[0]
 	})
 	reg("strings.TrimSuffix", func(fr *frame, args []value) value {
+		if allConcrete(args) {
+			return strings.TrimSuffix(args[0].(string), args[1].(string))
+		}
 		s, p := mustTerm(args[0]), mustTerm(args[1])
-		return strVal(Ite(SuffixOf(p, s), Substr(s, IntLit(0), Sub(StrLen(s), StrLen(p))), s))
+		if fr.path().branch(SuffixOf(p, s)) {
+			t := fr.path().Fresh("trimsuffix", SStr)
+			fr.path().Assume(Eq(s, Concat(t, p)))
+			return strVal(t)
+		}
+		return args[0]
 	})
 	reg("strings.Replace", func(fr *frame, args []value) value {
 		if allConcrete(args) {
@@ -239,6 +296,15 @@ func init() {
 		// result r: s = l ++ r ++ t, l and t whitespace, r has no leading/trailing whitespace (ASCII)
 		s := mustTerm(args[0])
 		p := fr.path()
+		// fast path: already trimmed (no leading / trailing white space)
+		{
+			ws := `(re.union (str.to_re " ") (re.range "\u{9}" "\u{d}"))`
+			nws := `(re.diff re.allchar ` + ws + `)`
+			trimmed := InRe(s, `(re.union (str.to_re "") `+nws+` (re.++ `+nws+` re.all `+nws+`))`)
+			if p.branch(trimmed) {
+				return args[0]
+			}
+		}
 		l := p.Fresh("trimspace.l", SStr)
 		r := p.Fresh("trimspace.r", SStr)
 		t := p.Fresh("trimspace.t", SStr)
@@ -725,10 +791,20 @@ func (i *interpreter) symSplit(s *Term, sep string) value {
 			parts = append(parts, rest)
 			break
 		}
-		idx := IndexOf(rest, sepT, IntLit(0))
-		parts = append(parts, Substr(rest, IntLit(0), idx))
-		after := Add(idx, IntLit(int64(len(sep))))
-		rest = Substr(rest, after, Sub(StrLen(rest), after))
+		part := p.Fresh("split.part", SStr)
+		rest2 := p.Fresh("split.rest", SStr)
+		if len(sep) == 1 {
+			// word equation; unique decomposition for a one-byte separator
+			p.Assume(Eq(rest, Concat(Concat(part, sepT), rest2)))
+			p.Assume(Not(Contains(part, sepT)))
+		} else {
+			idx := IndexOf(rest, sepT, IntLit(0))
+			after := Add(idx, IntLit(int64(len(sep))))
+			p.Assume(Eq(part, Substr(rest, IntLit(0), idx)))
+			p.Assume(Eq(rest2, Substr(rest, after, Sub(StrLen(rest), after))))
+		}
+		parts = append(parts, part)
+		rest = rest2
 	}
 	out := make([]value, len(parts))
 	for k, t := range parts {
@@ -754,8 +830,10 @@ func (i *interpreter) symAtoi(fr *frame, sv value, fn string) value {
 	n := StrToInt(digits)
 	val := Ite(neg, Neg(n), n)
 	lo, hi := kindRange(types.Int64)
-	syntaxOK := Ge(n, IntLit(0))
-	rangeOK := And(Ge(val, BigLit(lo)), Le(val, BigLit(hi)))
+	// syntax as a regular-language membership (solvers refute these much faster than str.to_int >= 0)
+	syntaxOK := InRe(s, `(re.++ (re.opt (re.union (str.to_re "+") (str.to_re "-"))) (re.+ (re.range "0" "9")))`)
+	// up to 18 digits always fit in int64: decided by length reasoning alone
+	rangeOK := Or(Le(StrLen(digits), IntLit(18)), And(Ge(val, BigLit(lo)), Le(val, BigLit(hi))))
 	switch p.fork([]*Term{And(syntaxOK, rangeOK), Not(syntaxOK), And(syntaxOK, Not(rangeOK))}) {
 	case 0:
 		return tuple{mkval(val, types.Int), nilError()}
